@@ -503,7 +503,7 @@ fn on_small_stack<T: Send>(ctx: &Ctx, f: impl FnOnce() -> T + Send) -> T {
 }
 
 pub fn c04_faulted(ctx: &Ctx, out: &mut RunOut) -> Result<(), Violation> {
-    for k in ["fault-truncate", "fault-bit-flip", "fault-byte-burst", "fault-zero-block", "fault-stale-block", "fault-misdirected-block", "fault-duplicated-block", "fault-splice", "fault-digit-edit", "fault-ref-retarget", "fault-cipher-pad-edit", "fault-number-extreme", "fault-deferred-length-edit", "fault-encryption-key-name-damaged", "base-with-deferred-length-in-the-clear", "deferred-length-changed-in-place", "deferred-length-extreme-only-fault", "entry-load-mem", "entry-load-from-faulty-source", "entry-incremental-load", "base-deep-nesting", "base-encrypted", "faulted-image-loaded-ok", "faulted-image-rejected"] {
+    for k in ["fault-truncate", "fault-bit-flip", "fault-byte-burst", "fault-zero-block", "fault-stale-block", "fault-misdirected-block", "fault-duplicated-block", "fault-splice", "fault-digit-edit", "fault-ref-retarget", "fault-cipher-pad-edit", "fault-number-extreme", "fault-deferred-length-edit", "fault-encryption-key-name-damaged", "page-tree-walk-with-hostile-count", "base-with-deferred-length-in-the-clear", "deferred-length-changed-in-place", "deferred-length-extreme-only-fault", "entry-load-mem", "entry-load-from-faulty-source", "entry-incremental-load", "base-deep-nesting", "base-encrypted", "faulted-image-loaded-ok", "faulted-image-rejected"] {
         ctx.count_n(k, 0); // registered so that a probe that never fires shows up as zero in the evidence
     }
     LENGTH_OBJECT_SPANS.with(|c| c.borrow_mut().clear());
@@ -652,6 +652,30 @@ pub fn c04_faulted(ctx: &Ctx, out: &mut RunOut) -> Result<(), Violation> {
         if let Some(d) = &loaded {
             ctx.count("faulted-image-loaded-ok");
             guarded("decoders on the loaded document", || on_small_stack(ctx, || exercise_decoders(d)))?;
+            // the page tree with a /Count a hostile file may carry (a same-size fault cannot write that many
+            // digits, so the value is put into the loaded document): the walks must neither panic nor
+            // reserve memory for pages that cannot exist
+            if ctx.chance(F, 1, 4, "hostile-count") {
+                let mut x = d.clone();
+                let nodes: Vec<(u32, u16)> = x.objects.iter().filter(|(_, o)| o.as_dict().map(|dd| dd.has_type(b"Pages")).unwrap_or(false)).map(|(id, _)| *id).collect();
+                if !nodes.is_empty() {
+                    let v = [1i64 << 31, 1 << 32, 1 << 40, 1 << 62, i64::MAX, -1, 5_000_000_000][ctx.draw(F, 7, "hostile-count-value") as usize];
+                    for id in nodes.iter().skip(ctx.draw(F, nodes.len() as u64, "hostile-count-from") as usize) {
+                        if let Ok(dd) = x.get_object_mut(*id).and_then(|o| o.as_dict_mut()) {
+                            dd.set("Count", v);
+                        }
+                    }
+                    ctx.count("page-tree-walk-with-hostile-count");
+                    guarded("page-tree walks with a hostile /Count", || {
+                        on_small_stack(ctx, || {
+                            let pages = x.get_pages();
+                            let _ = x.page_iter().count();
+                            let nums: Vec<u32> = pages.keys().cloned().take(4).collect();
+                            let _ = x.extract_text(&nums);
+                        })
+                    })?;
+                }
+            }
             // a damaged encrypted file the loader could not open on its own: the explicit calls must return too
             if d.is_encrypted() {
                 ctx.count("decrypt-on-damaged-encrypted-image");
